@@ -929,6 +929,14 @@ func (ds *AnySource) PrepareRun(Npresamples int, Nsamples int) error {
 	ds.abortSelf = make(chan struct{})
 	ds.nextBlock = make(chan *dataBlock)
 
+	// A raw-data archive request that the previous run did not fill never will be: its buffers were
+	// laid out for that run's channels. Give it up rather than feed it this run's blocks.
+	if ds.archiveBlock.active {
+		close(ds.archiveBlock.complete)
+		ds.archiveBlock.active = false
+		ds.archiveBlock.dataBlock = dataBlock{}
+	}
+
 	// Create a TriggerBroker to handle secondary triggering
 	ds.broker = NewTriggerBroker(ds.nchan)
 
@@ -1151,7 +1159,13 @@ func (ds *AnySource) ArchiveDataBlock(N int, file *os.File, finalName string) er
 	// Launch this goroutine, which will execute when the filled block arrives on the channel
 	go func() {
 		// When the archiveBlock is filled, write to npz file.
-		filled := <-complete
+		filled, ok := <-complete
+		if !ok {
+			// The request was given up (the source was restarted before it was filled): no file.
+			file.Close()
+			os.Remove(file.Name())
+			return
+		}
 		if err := writeNPZData(file, filled); err != nil {
 			file.Close()
 		}
